@@ -232,7 +232,9 @@ Proof.
   destruct (Nat.ltb (clen (ps_com p)) (ps_end p)) eqn:Ele; [discriminate|]. apply Nat.ltb_ge in Ele.
   destruct (has_phrase dops d (ps_fuzzy p) _) eqn:Eh.
   - inv_ok H. split; [split; [eapply range_has_lt; eassumption | assumption] | reflexivity].
-  - destruct (ps_fwd p).
+  - destruct (Nat.eqb (ps_end p - ps_begin p) 1 && _) eqn:E1.
+    { apply andb_true_iff in E1 as (E1 & _). apply Nat.eqb_eq in E1. inv_ok H. split; [split; [lia | assumption] | reflexivity]. }
+    destruct (ps_fwd p).
     + destruct (Nat.eqb (ps_end p) 0); [discriminate|]. now destruct (IH _ _ Hd H).
     + now destruct (IH _ _ Hd H).
 Qed.
@@ -286,14 +288,18 @@ Proof.
     + eapply IH; eassumption.
 Qed.
 
-Lemma ps_cycle_inv d fuel : forall p p', dict_ok d -> ps_cycle dops d fuel p = Ok p' -> ps_ok p' /\ ps_com p' = ps_com p.
+Lemma ps_cycle_inv d fuel start : forall p p', dict_ok d -> fst start < snd start <= clen (ps_com p) ->
+  ps_cycle dops d fuel start p = Ok p' -> ps_ok p' /\ ps_com p' = ps_com p.
 Proof.
-  induction fuel as [|k IH]; intros p p' Hd H; cbn [ps_cycle] in H; [discriminate|].
+  induction fuel as [|k IH]; intros p p' Hd Hst H; cbn [ps_cycle] in H; [discriminate|].
   match type of H with context[match ?r with Ok _ => _ | Err _ => _ | Panic _ => _ | OutOfFuel => _ end] =>
     destruct r as [[b e]| | |] eqn:Er end; try discriminate.
   destruct (ps_range_has dops d p b e) as [[|]| | |] eqn:Eh; try discriminate.
   - inv_ok H. unfold ps_ok. cbn [ps_with_range ps_begin ps_end ps_com]. split; [eapply ps_range_has_lt; eassumption | reflexivity].
-  - destruct (IH _ _ Hd H) as (Hok & Hc). split; [exact Hok | exact Hc].
+  - destruct (Nat.eqb b (fst start) && Nat.eqb e (snd start)) eqn:Eb.
+    + apply andb_true_iff in Eb as (E1 & E2). apply Nat.eqb_eq in E1, E2. inv_ok H.
+      unfold ps_ok. cbn [ps_with_range ps_begin ps_end ps_com]. split; [lia | reflexivity].
+    + destruct (IH (ps_with_range p b e) p' Hd Hst H) as (Hok & Hc). split; [exact Hok | exact Hc].
 Qed.
 
 Lemma ps_jump_last_inv d fuel : forall p p', dict_ok d -> ps_ok p ->
@@ -443,7 +449,7 @@ Proof.
       destruct (negb (o_fullwidth (opts s))); [eapply CI; eassumption|].
       destruct (full_width_symbol_input (kunicode ev)); [eapply CI; eassumption | discriminate].
   - destruct (negb (o_fullwidth (opts s))); [eapply CI; eassumption|].
-    destruct (full_width_symbol_input (kunicode ev)); [eapply CI; eassumption | discriminate].
+    destruct (full_width_symbol_input (kunicode ev)); [eapply CI; eassumption | inv_ok H; split; [assumption | triv_t]].
 Qed.
 
 Ltac done_spin H := inv_ok H; split; [first [assumption | sinv] | triv_t].
@@ -599,8 +605,9 @@ Proof.
       eapply total_page_lt; eassumption. }
     destruct sel as [p|y|sym0].
     - bind_ok H p' Hp'. inv_ok H. split; [assumption | split; [exact Logic.I|]].
-      destruct I as [W Dk]. unfold ps_next in Hp'. destruct (ps_cycle_inv _ _ _ _ Dk Hp') as (Hok & Hc).
-      destruct Hsel as (_ & Hcom). split; [|apply page_ok_zero]. split; [exact Hok | congruence].
+      destruct I as [W Dk]. unfold ps_next in Hp'. destruct Hsel as ((Hlt & Hle) & Hcom).
+      destruct (ps_cycle_inv _ _ (ps_begin p, ps_end p) p p' Dk (conj Hlt Hle) Hp') as (Hok & Hc).
+      split; [|apply page_ok_zero]. split; [exact Hok | congruence].
     - inv_ok H. fin_stay.
     - inv_ok H. fin_stay. }
   split_if H.
